@@ -109,9 +109,11 @@ pub fn cmd_reader() {
         // optionally the frame does not sit at the beginning of the reader: `prefix` junk bytes come first and the
         // reader is positioned after them; `chain` decodes the same frame a second time from the same reader
         // (two frames back to back)
-        let prefix = v["prefix"].as_u64().unwrap_or(0) as usize;
+        // (`prefix_bytes`: what comes first is given - another frame, say - instead of junk)
+        let given: Option<Vec<u8>> = v["prefix_bytes"].as_array().map(|a| a.iter().map(|x| x.as_u64().unwrap() as u8).collect());
+        let prefix = given.as_ref().map_or(v["prefix"].as_u64().unwrap_or(0) as usize, Vec::len);
         let chain = v["chain"].as_u64().unwrap_or(0) == 1;
-        let mut data: Vec<u8> = (0..prefix).map(|i| (i as u8).wrapping_mul(37).wrapping_add(11)).collect();
+        let mut data: Vec<u8> = given.unwrap_or_else(|| (0..prefix).map(|i| (i as u8).wrapping_mul(37).wrapping_add(11)).collect());
         data.extend_from_slice(&bytes);
         if chain {
             data.extend_from_slice(&bytes);
@@ -140,6 +142,11 @@ pub fn cmd_reader() {
                 if o2 != o {
                     o = o2;
                     outcome = oc2;
+                } else if rd.pos != prefix + 2 * flen {
+                    // the same frame again, but not read from where the first one ended (or not wholly)
+                    let crc = o.get("crc").cloned().unwrap_or(json!(-1));
+                    o = json!({"ok": 4, "consumed": rd.pos - prefix.min(rd.pos), "crc": crc});
+                    outcome = "misaligned";
                 }
             }
         }
